@@ -112,7 +112,7 @@ LEAF = [
     (6, "af", True, ["", "f"]), (7, "at", True, ["", "T", "F"]), (8, "ai", True, ["", "i"]),
     (9, "ao", True, ["", "i", "c", "S"]), (10, "am", True, ["", "T", "F"]), (11, "bl", True, ["", "i"]),
     (12, "bl", False, [""]), (13, "str", False, ["", "s"]), (14, "act", False, [""]), (15, "acti", False, ["i"]),
-    (16, "is_on", False, [""]), (17, "self", False, [""]), (18, "dummy", False, None),
+    (16, "is_on", False, [""]), (17, "self", False, [""]), (18, "dummy", False, None), (19, "cross", False, [""]),
 ]
 def argspec(alts):
     if alts is None:
@@ -444,6 +444,44 @@ def nontrivial(case, impl):
         return " match=1" in impl
     return s == "reply"
 
+def minimise(case, impl, failure, run):
+    """greedy shrinking of a failing case: drop ring operations / ports of generated
+    tables as long as the RT section still allocates or locks"""
+    f = case.split(" ")
+    def fails(c):
+        o = run([c])[0]
+        sf = spec_check(c, o)
+        return (o, sf) if sf and sf.startswith("rt-unsafe") else None
+    if not failure.startswith("rt-unsafe"):
+        return case, impl, failure
+    best = (case, impl, failure)
+    if f[0] == "link":
+        ops = f[4].split(",")
+        i = 0
+        while i < len(ops) and len(ops) > 1:
+            cand = ops[:i] + ops[i + 1:]
+            c = " ".join(f[:4] + [",".join(cand)] + f[5:])
+            r = fails(c)
+            if r:
+                ops = cand; best = (c, r[0], r[1])
+            else:
+                i += 1
+    elif f[0] == "disp" and f[2].startswith("G"):
+        tabs = [t.split(":", 1) for t in f[2][1:].split(";")]
+        tabs = [[fl, ps.split("|")] for fl, ps in tabs]
+        for ti in range(len(tabs)):
+            i = 0
+            while i < len(tabs[ti][1]) and len(tabs[ti][1]) > 1:
+                keep = tabs[ti][1][:i] + tabs[ti][1][i + 1:]
+                spec = "G" + ";".join("%s:%s" % (fl, "|".join(keep if k == ti else ps)) for k, (fl, ps) in enumerate(tabs))
+                c = " ".join(f[:2] + [spec] + f[3:])
+                r = fails(c)
+                if r:
+                    tabs[ti][1] = keep; best = (c, r[0], r[1])
+                else:
+                    i += 1
+    return best
+
 # ---------------------------------------------------------------------------
 _diag = {"graph": None, "problems": []}
 
@@ -461,9 +499,6 @@ def pre_proofs(ctx):
     oc = G.get("objcheck", {})
     ctx["log"]("object-code cross-check: %d reachable functions disassembled, %d objects identical to the driven build, %d discrepancies"
                % (oc.get("functions_checked", 0), oc.get("objects_identical_to_plain_build", 0), len(oc.get("discrepancies", []))))
-    if oc.get("discrepancies"):
-        raise ctx["BuildError"]("GCC's .ci call graph does not agree with the object code:\n" +
-                                "\n".join(oc["discrepancies"][:12]))
     if probs:
         # one line per offending last edge (caller -> forbidden symbol), shortest path first;
         # kept short because vcheck stores the tail of the message in the replay file
@@ -482,6 +517,9 @@ def pre_proofs(ctx):
         msg = ("the regenerated call graph has a path from an RT entry point to a forbidden / not-allowed "
                "symbol, so Properties_C03 cannot check any more (%d offending edge(s)):\n" % len(best))
         raise ctx["BuildError"](msg + "\n".join(l[:600] for l in lines)[-1700:])
+    if oc.get("discrepancies"):
+        raise ctx["BuildError"]("GCC's .ci call graph does not agree with the object code:\n" +
+                                "\n".join(oc["discrepancies"][:12]))
 
 def extra_evidence(ctx):
     G = _diag["graph"]
@@ -506,7 +544,7 @@ TECHNIQUE = ("translator + Coq: GCC's post-optimisation call graph of the librar
              "allocator / mutex interposition")
 LEVEL_TEXT = ("Proved for the call graph GCC emits for the current source (-O2 -g -DNDEBUG): no path of direct calls, or of "
               "indirect calls as resolved by the explicit table, leads from any RT entry point (rtosc_message/vmessage/"
-              "amessage/avmessage, all readers, bundle functions, rtosc_match*, Ports::dispatch, each of the 32 instantiated "
+              "amessage/avmessage, all readers, bundle functions, rtosc_match*, Ports::dispatch, each of the instantiated "
               "sugar callbacks, RtData::reply/broadcast/chain, every ThreadLink method) to malloc/calloc/realloc/free/"
               "posix_memalign/aligned_alloc/operator new/delete/pthread_mutex_lock/trylock/__cxa_allocate_exception/"
               "std::__throw_*/std::string growth (C03_no_forbidden_reachable); every reachable symbol is either defined in "
